@@ -14,6 +14,9 @@ def programs(ctx):
         shapes = [(k, n, g) for k in ("tuple", "named") for n in range(0, 5) for g in (False, True) if not (g and n == 0)] + [("unit", 0, False)]
     for i, (kind, n, g) in enumerate(shapes):
         out.append(fam2.c08_prog("p_%04d" % i, kind, n, ALL, generic=g))
+    # every operator trait requested on its own (no counterpart on the same type that could hide a mix-up between two of them)
+    for j, op in enumerate(ALL):
+        out.append(fam2.c08_prog("p_s%02d" % j, ["tuple", "named"][j % 2], 2, [op]))
     # explicit bound(..) arguments (per entry, shared, nested on a field) must not change what the operators do
     some = ["Sub", "SubAssign", "Shl", "ShlAssign", "Add", "AddAssign", "Neg"] if ctx.quick else ALL
     for j, (mode, kind) in enumerate([("entry", "tuple"), ("shared", "named"), ("field", "tuple")] + ([] if ctx.quick else [("entry", "named"), ("shared", "tuple"), ("field", "named")])):
